@@ -131,7 +131,6 @@ func body(withConsumer, withClose bool) func(c *vsched.Ctx) {
 		var writer *vsched.Thread
 		writer = vsched.GoNamed("writer", func() {
 			for i := 0; i < ncalls; i++ {
-				callsBefore := uw.call
 				vsched.Mark("inwrite", 1)
 				if kinds[i] == 0 {
 					pw.Write([]byte(payload))
@@ -141,9 +140,6 @@ func body(withConsumer, withClose bool) func(c *vsched.Ctx) {
 				vsched.Mark("inwrite", 0)
 				// the statement is about Size() and Status(): what Write itself hands back, and through
 				// which method of the wrapped writer (and in how many pieces) the bytes go, is not part of it
-				if uw.call == callsBefore {
-					vsched.Fail(fmt.Sprintf("C19: call %d (%s) never reached the wrapped writer", i, desc[i]))
-				}
 				total = uw.total
 				if got := pw.Size(); got != total {
 					vsched.Fail(fmt.Sprintf("C19: Size()=%d after calls %v, the wrapped writer reported %d bytes in total", got, desc[:i+1], total))
@@ -155,7 +151,9 @@ func body(withConsumer, withClose bool) func(c *vsched.Ctx) {
 			writerDone = true
 		})
 		c.OnStep(func() string {
-			if writer != nil && writer.Marks["inwrite"] == 1 && writer.Blocked() {
+			// blocked on a channel operation: that is waiting for a receiver. Waiting for a mutex that
+			// another thread holds for a moment is not (a writer stuck for good is reported at the end)
+			if writer != nil && writer.Marks["inwrite"] == 1 && writer.Blocked() && !strings.Contains(writer.PendingOp(), "Mutex") && !strings.Contains(writer.PendingOp(), "Once") && !strings.Contains(writer.PendingOp(), "Cond") {
 				return fmt.Sprintf("C19: the writer is blocked inside Write/WriteString (%s) after calls %v", writer.PendingOp(), desc)
 			}
 			return ""
